@@ -317,7 +317,7 @@ def run_shard(ctx):
 
     # (c)/(d) write, write->read
     for off in mine:
-        for j in range(2 if not thorough else 12):
+        for j in range(2 if not thorough else 40):
             y, mo, d, h, mi, s, ms = rng.choice(instants(rng, 12))
             us = rng.choice([0, ms * 1000, rng.randint(0, 999999), 999500, 999499, 999999, 500, 499])
             name = rng.choice(NAMES)
